@@ -33,7 +33,7 @@ def model_batch(lines):
     return out
 
 def req_line(cmd, opts, s):
-    return '%s %s %s' % (cmd, canon.opts_str(**opts), canon.enc_input(s) or '-')
+    return '%s\t%s\t%s' % (cmd, canon.opts_str(**opts), canon.enc_input(s) or '-')
 
 def impl_run(cmd, opts, s):
     bl = get_bashlex()
